@@ -180,8 +180,33 @@ func engineC19History(ctx *Ctx) {
 				without.Commands = append(without.Commands, extra...)
 				with.Commands = append(with.Commands, extra...)
 				nofiles.Commands = append(nofiles.Commands, extra...)
+				if i%3 == 1 { // the caller rebuilds the index itself after growing the list
+					for _, x := range []*database.Database{without, with, nofiles} {
+						x.BuildUniversalIndex()
+					}
+					trace = append(trace, "BuildUniversalIndex()")
+					ctx.R.Path("history-explicit-index-builds", 1)
+				}
 				trace = append(trace, fmt.Sprintf("append(%d)", len(extra)))
 				continue
+			}
+			if step == 3 && i%3 == 2 {
+				// the caller swaps in a freshly loaded copy of the same entries (same length, another backing array) and rebuilds the index
+				for _, x := range []*database.Database{without, with, nofiles} {
+					x.SearchUniversal(words[0], database.SearchOptions{Limit: 3, AllPlatforms: true}) // (whatever is built lazily after the growth is built now)
+					fresh := make([]database.Command, len(x.Commands))
+					copy(fresh, x.Commands)
+					x.Commands = fresh
+					if (i/6)%2 == 0 {
+						x.BuildUniversalIndex()
+					}
+				}
+				if (i/6)%2 == 0 {
+					trace = append(trace, "Commands = a copy of the same entries; BuildUniversalIndex()")
+				} else {
+					trace = append(trace, "Commands = a copy of the same entries (nothing rebuilt: same texts, same positions)")
+				}
+				ctx.R.Path("history-same-length-replacements", 1)
 			}
 			q := vlib.GenQuery(r, words, 1+r.Intn(3), 0)
 			if r.Intn(5) == 0 {
@@ -199,7 +224,22 @@ func engineC19History(ctx *Ctx) {
 					x.Commands[j].Keywords = append(append([]string(nil), x.Commands[j].Keywords...), w)
 				}
 				os.Chdir(emptyDir)
-				ctx.R.Guard("C19", "LoadEmbeddings(no files)", kind, func() { nofiles.LoadEmbeddings() })
+				ctx.R.Guard("C19", "LoadEmbeddings(no files)", kind, func() {
+					if step == 1 {
+						nofiles.LoadEmbeddings()
+						return
+					}
+					// ... through the caching wrapper around the copy (whatever LoadEmbeddings means there), whose result cache the
+					// user has switched off: it stays off
+					w := database.NewCachedDatabase(nofiles)
+					w.EnableCache(false)
+					w.LoadEmbeddings()
+					ctx.R.Path("history-feature-tried-through-a-wrapper-with-the-cache-off", 1)
+					if w.IsCacheEnabled() {
+						ctx.R.Violate(vlib.Violation{Property: "C19", Clause: "inert-without-files", Path: "history/" + kind,
+							Detail: "LoadEmbeddings where no embedding files exist, called through a caching wrapper whose cache was switched off, switched the cache on", Witness: trace})
+					}
+				})
 				os.Chdir(origWD)
 				trace = append(trace, fmt.Sprintf("entry %d edited in place (+%q), LoadEmbeddings where no files exist on the third copy", j, w))
 				if nofiles.HasEmbeddings() {
